@@ -26,6 +26,30 @@ class PollingBytesIO(io.BytesIO):
         return io.BytesIO.read(self, n)
 
 
+class NonBlockingBytesIO(io.BytesIO):
+    """the idiom of the library's own tests (`NonBlockingStream(io.BytesIO)`): an in-memory stream that holds what
+    has arrived so far, hands it out (so a read may come back short) and answers None once it has nothing more while
+    its input is still open; after close_input() it answers b'' like any exhausted stream"""
+
+    def __init__(self, data=b'', max_read=None):
+        io.BytesIO.__init__(self, data)
+        self._open_input = True
+        self.max_read = max_read
+
+    def close_input(self):
+        self._open_input = False
+
+    def read(self, n=-1):
+        if n == 0:
+            return b''
+        if self.max_read is not None and (n is None or n < 0 or n > self.max_read):
+            n = self.max_read
+        data = io.BytesIO.read(self, n)
+        if not data and self._open_input:
+            return None
+        return data
+
+
 class GrowingStream(io.RawIOBase):
     """bytes arrive through feed(); close_input() signals end of stream.
     `max_read` bounds how many bytes one read() returns (short reads)."""
